@@ -38,7 +38,6 @@ from dask.dataframe.groupby import (
     _non_agg_chunk,
     _normalize_spec,
     _nunique_df_chunk,
-    _nunique_df_combine,
     _tail_aggregate,
     _tail_chunk,
     _unique_aggregate,
@@ -822,17 +821,27 @@ class Mean(GroupByReduction):
     chunk = staticmethod(_mean_chunk)
 
 
-def nunique_df_combine(dfs, *args, **kwargs):
-    return _nunique_df_combine(concat(dfs), *args, **kwargs)
-
-
-def nunique_df_aggregate(dfs, levels, name, sort=False):
+def nunique_df_combine(dfs, levels, sort=False, dropna=None):
     df = concat(dfs)
+    dropna = {} if dropna is None else {"dropna": dropna}
+    return (
+        df.groupby(level=levels, sort=sort, observed=True, **dropna)[df.columns[0]]
+        .unique()
+        .explode()
+        .to_frame()
+    )
+
+
+def nunique_df_aggregate(dfs, levels, name, sort=False, dropna=None):
+    df = concat(dfs)
+    dropna = {} if dropna is None else {"dropna": dropna}
     if df.ndim == 1:
         # split out reduces to a Series
-        return df.groupby(level=levels, sort=sort, observed=True).nunique()
+        return df.groupby(level=levels, sort=sort, observed=True, **dropna).nunique()
     else:
-        return df.groupby(level=levels, sort=sort, observed=True)[name].nunique()
+        return df.groupby(level=levels, sort=sort, observed=True, **dropna)[
+            name
+        ].nunique()
 
 
 class NUnique(SingleAggregation):
@@ -854,11 +863,11 @@ class NUnique(SingleAggregation):
 
     @functools.cached_property
     def aggregate_kwargs(self) -> dict:
-        return {"levels": self.levels, "name": self._slice}
+        return {"levels": self.levels, "name": self._slice, "dropna": self.dropna}
 
     @functools.cached_property
     def combine_kwargs(self):
-        return {"levels": self.levels}
+        return {"levels": self.levels, "dropna": self.dropna}
 
 
 class Head(SingleAggregation):
